@@ -25,6 +25,8 @@ pub enum NetFault {
     Stall(usize),
     /// empty body, status 500
     Empty,
+    /// correct body, but the Content-Length header announces this many bytes
+    LieContentLength(u64),
 }
 
 #[derive(Clone, Copy, Debug, PartialEq, Eq)]
@@ -110,6 +112,7 @@ impl Server {
         };
         let mut end = BodyEnd::Eof;
         let mut tail: Option<(usize, u64)> = None;
+        let mut lie: Option<u64> = None;
         if let Some(f) = &fault {
             simkit::try_with(|s| s.count("net-fault"));
         }
@@ -154,7 +157,9 @@ impl Server {
                 status = 500;
                 body.clear();
             }
+            Some(NetFault::LieContentLength(n)) => lie = Some(n),
         }
+        let content_length = lie.or(Some(body.len() as u64));
         let fragments = fragment(&body, self.frag, self.max_delay_ns, tape);
         ResponsePlan {
             connect: Ok(()),
@@ -164,6 +169,7 @@ impl Server {
             end,
             end_delay_ns: 0,
             tail,
+            content_length,
         }
     }
 }
